@@ -207,7 +207,12 @@ func (c *Ctx) oblige(kind string, pc, goal *Term, pos token.Position, detail str
 func (c *Ctx) obligeNamed(name, kind string, pc, goal *Term, pos token.Position, detail string) *Obligation {
 	o := c.oblige(kind, pc, goal, pos, detail)
 	if o != nil && name != "" {
-		o.Name = c.fnName + "/" + name
+		full := c.fnName + "/" + name
+		c.counters["name:"+full]++
+		if n := c.counters["name:"+full]; n > 1 {
+			full = fmt.Sprintf("%s.%d", full, n)
+		}
+		o.Name = full
 	}
 	return o
 }
